@@ -4,12 +4,12 @@
 Require Extraction.
 Require ExtrOcamlBasic.
 From Coq Require Import List NArith.
-From SV Require Import Params Codec.Varint Codec.Schedule Clock.VClock Prim.Objects Prim.Atomic Engine.Exec Engine.Failure Engine.Runner Prim.Semaphore Lang.SyncOps Lang.SyncOps2 Lang.AsyncOps Lang.Prog Sched.Dfs Sched.Random Sched.Pct Sched.Replay.
+From SV Require Import Params Codec.Varint Codec.Schedule Clock.VClock Prim.Objects Prim.Atomic Engine.Exec Engine.Failure Engine.Runner Prim.Semaphore Lang.SyncOps Lang.SyncOps2 Lang.AsyncOps Lang.Prog Lang.ProgRun Sched.Dfs Sched.Random Sched.Pct Sched.Replay.
 Extraction Language OCaml.
 Separate Extraction
   N.add N.mul N.sub N.div N.modulo N.eqb N.ltb N.leb N.of_nat N.to_nat N.succ N.pred N.compare
   Codec.Schedule.ser Codec.Schedule.deser Codec.Schedule.ser_bytes Codec.Schedule.deser_bytes
-  Lang.Prog.run_prog Lang.Prog.run_prog_dfs Lang.SyncOps.mutex_new Lang.SyncOps.rwlock_new Lang.SyncOps.semaphore_new Lang.SyncOps2.chan_new Lang.SyncOps2.set_senders Engine.Runner.is_failure Lang.Prog.prog_count_t Clock.VClock.partial_cmp Clock.VClock.vle Clock.VClock.extend Clock.VClock.increment Clock.VClock.update
+  Lang.Prog.run_prog Lang.Prog.run_prog_dfs Lang.ProgRun.run_prog_replay Lang.SyncOps.mutex_new Lang.SyncOps.rwlock_new Lang.SyncOps.semaphore_new Lang.SyncOps2.chan_new Lang.SyncOps2.set_senders Engine.Runner.is_failure Lang.Prog.prog_count_t Clock.VClock.partial_cmp Clock.VClock.vle Clock.VClock.extend Clock.VClock.increment Clock.VClock.update
   Sched.Dfs.dfs_run Sched.Dfs.dfs_outcome Sched.Dfs.leaves Sched.Dfs.truncate Sched.Dfs.wf_treeb Sched.Dfs.next_task Sched.Dfs.new_execution Sched.Dfs.dfs_new
   Sched.Random.rs_new_from_seed Sched.Random.rs_new_execution Sched.Random.rs_next_task Sched.Random.rs_next_u64
   Sched.Pct.pct_new_from_seed Sched.Pct.pct_new_execution Sched.Pct.pct_next_task Sched.Pct.pct_next_u64
